@@ -12,6 +12,7 @@ import logging
 import os
 import re
 import subprocess
+import zlib
 from pathlib import Path
 
 from . import common, c05_ref
@@ -180,9 +181,16 @@ def run_file_source(text):
     return [out, total, nphys]
 
 
-def run_parse_file(text, path="/nonexistent/c05.cpp"):
+def run_parse_file(text, path="/nonexistent/c05.cpp", crlf_file=None):
+    """parse_file on the text.  Default route: file_parser.open replaced by a StringIO factory.
+    crlf_file: write the text to that path with every newline encoded as CR LF and let the REAL open() read it
+    (the same text in its other on-disk encoding; universal newlines must make no difference)."""
     from codebasin import file_parser, preprocessor
-    file_parser.open = lambda fn, errors=None: io.StringIO(text)
+    if crlf_file is not None:
+        Path(crlf_file).write_bytes(text.replace("\n", "\r\n").encode("utf-8"))
+        path = str(crlf_file)
+    else:
+        file_parser.open = lambda fn, errors=None, **kw: io.StringIO(text)
     try:
         tree = file_parser.FileParser(path).parse_file()
     except RuntimeError:
@@ -190,7 +198,8 @@ def run_parse_file(text, path="/nonexistent/c05.cpp"):
     except Exception as e:  # noqa
         return ["EXC", type(e).__name__]
     finally:
-        del file_parser.open
+        if crlf_file is None:
+            del file_parser.open
     nodes = []
     for n in tree.walk():
         if n is tree.root:
@@ -211,7 +220,7 @@ class C05(Check):
             "several physical lines")
     assumptions = [
         "ASCII text without carriage returns (open() would translate them); str.isspace on ASCII = 9-13, 28-32",
-        "the file object yields the text split after each newline (StringIO stands in for open(); a sample goes through real files)",
+        "the file object yields the text split after each newline (StringIO stands in for open() on 3/4 of the cases; every corpus case and 1/4 of the generated ones are written to a real file with CR LF line ends and read by the real open(): same text, other on-disk encoding of newline)",
         "DirectiveParser/SourceTree.insert accept the directive line (C01/C03 own their behaviour); nodes are read back in pre-order",
     ]
 
@@ -228,6 +237,8 @@ class C05(Check):
         self._iso_bad = []
         self._stream = {}
         self._seen_dom = set()
+        self._crlf_all = True        # until generate() has run (replay mode never calls it)
+        self._corpus_set = None
         self.stats = {"input_distribution": {}}
 
     # ---- cases
@@ -260,6 +271,7 @@ class C05(Check):
         d["grammar_with_multiline_comment"] = sum(1 for t in rnd if any("\n" in c.split("*/")[0] for c in t.split("/*")[1:]))
         d["grammar_with_literal"] = sum(1 for t in rnd if '"' in t or "'" in t)
         d["grammar_with_directive"] = sum(1 for t in rnd if "#" in t)
+        self._crlf_all = False
         return out
 
     def key(self, case):
@@ -270,9 +282,25 @@ class C05(Check):
         return "#" + case.encode("latin-1", errors="replace").hex()
 
     # ---- I
+    def crlf_selected(self, case):
+        """Every corpus case, a quarter of the generated cases (a pure function of the text, so that a replay takes
+        the same route) and every case met while shrinking or replaying goes through a real CR LF file."""
+        if self._crlf_all or zlib.crc32(case.encode("utf-8", "replace")) % 4 == 0:
+            return True
+        if self._corpus_set is None:
+            self._corpus_set = set(super().corpus())
+        return case in self._corpus_set
+
     def impl(self, case):
-        tree = run_parse_file(case)
-        if isinstance(tree, list) and tree and tree[0] == "EXC":
+        if self.crlf_selected(case):
+            d = common.scratch() / "c05crlf"
+            d.mkdir(exist_ok=True)
+            tree = run_parse_file(case, crlf_file=d / "t.cpp")
+            dist = self.stats["input_distribution"]
+            dist["crlf_real_file_cases"] = dist.get("crlf_real_file_cases", 0) + 1
+        else:
+            tree = run_parse_file(case)
+        if isinstance(tree, list) and tree and tree[0] == "EXC" and tree[1] in ("ParseError", "AttributeError"):
             # DirectiveParser / SourceTree.insert rejected a directive line (C01/C03 territory):
             # only the c_file_source observation is compared for this case
             self._exc[case] = tree
@@ -355,6 +383,7 @@ class C05(Check):
         return counted >= 1 and (counted < fs[2] or multi)
 
     def shrink(self, case, still_fails):
+        self._crlf_all = True        # every candidate (and a later replay of the result) takes both encodings' strictest route
         return "".join(common.shrink_list(list(case), lambda cs: still_fails("".join(cs))))
 
     # ---- framework self tests
